@@ -76,7 +76,11 @@ func c09SchemaFor(in *c09Input) *graphql.Schema {
 	if in.Schema == "zero" {
 		return &graphql.Schema{}
 	}
-	return c09FixedSchema()
+	fixed := c09FixedSchema()
+	if in.Schema == "queryonly" {
+		return &c09SchemaQ
+	}
+	return fixed
 }
 
 func c09Parse(req []byte) (*ast.Document, error) {
